@@ -215,6 +215,28 @@ class Interp:
                 out.append(f"[{'Y' if escape_slot_name(n[1]) in {escape_slot_name(f) for f in owner.fills} else 'N'}:{n[1]}]")
             elif k == "idecho":
                 out.append(f"[I{owner.no}]")
+            elif k == "pyecho":
+                # HTML of <class>.render() called from get_context_data(): a root render with an empty Context (the class
+                # sees only its own data, no providers, no fills), printed here - so its top-level elements are top-level
+                # output of the enclosing instances for which this place is top-level
+                cls2 = self.p["classes"][n[1]]
+                inst2 = Inst(len(self.instances), n[1], {}, None)
+                inst2.only = False
+                inst2.pyrendered = True
+                self.instances.append(inst2)
+                if n[1] not in self.classes_in_order:
+                    self.classes_in_order.append(n[1])
+                for key, default in cls2.get("inject", []):
+                    if default is None:
+                        raise Expected("KeyError", f"inject('{key}') without provider or default (python render)")
+                    inst2.injected[key] = default
+                inst2.tenv = (("data", f"D{n[1]}", dict(cls2.get("data", {}))),)
+                inst2.dyn_ancestors = [i.cname for i in self.render_stack]
+                self.render_stack.append(inst2)
+                try:
+                    out += self.eval(cls2["template"], inst2.tenv, inst2, {}, top | {inst2.no}, depth + 1, False, ())
+                finally:
+                    self.render_stack.pop()
             elif k == "injecho":
                 out.append(f"[inj:{n[1]}={owner.injected.get(n[1], '')}]")
             elif k == "provide":
